@@ -32,6 +32,7 @@ is a shape the extractor does not understand (fail-closed, less serious, still w
     ete-synonyms   traverse("s") -> traverse(strategy="s"), iter_X() <-> get_X() in iterations, x.is_leaf() -> not x.children
     lambda-to-def  a lambda in a statement of a function body -> a local def just before it
     minmax-forms   v = min(v, e) -> if e < v: v = e; min(a, b) -> a if a <= b else b / min([a, b])
+    extract-helper an arithmetic / boolean / conditional value of a return or assignment -> module-level helper over the locals it reads
     hoist-strings  a string literal used twice in the functions of a module becomes a module-level constant
     extract-alias  .. x.costs[a] .. x.costs[b] ..  ->  alias = x.costs; .. alias[a] .. alias[b] ..
     inline-alias   c = x.costs; .. c[k] ..  ->  .. x.costs[k] ..   (top-level local bound once to an attribute chain of a parameter)
@@ -870,6 +871,89 @@ class MinMaxForms(Rewrite):
         return node
 
 
+
+class ExtractHelper(Rewrite):
+    """the value of a return / plain assignment inside a function, when it is an arithmetic, boolean, comparison or
+    conditional expression over local names, moves into a module-level helper `_helper_eqN(locals...)` that returns it
+    (extract-function; the helpers sit after the imports, globals are looked up at call time as before)"""
+
+    def __init__(self, only=None):
+        super().__init__(only)
+        self.stack = []
+        self.helpers = []
+
+    def _locals(self, fn):
+        names = {a.arg for a in fn.args.posonlyargs + fn.args.args + fn.args.kwonlyargs}
+        for a in (fn.args.vararg, fn.args.kwarg):
+            if a:
+                names.add(a.arg)
+        for n in ast.walk(fn):
+            if isinstance(n, ast.Name) and isinstance(n.ctx, (ast.Store, ast.Del)):
+                names.add(n.id)
+            elif isinstance(n, (ast.FunctionDef, ast.AsyncFunctionDef, ast.ClassDef)) and n is not fn:
+                names.add(n.name)
+            elif isinstance(n, (ast.Import, ast.ImportFrom)):
+                names.update((al.asname or al.name).split(".")[0] for al in n.names)
+            elif isinstance(n, ast.ExceptHandler) and n.name:
+                names.add(n.name)
+        return names
+
+    def visit_FunctionDef(self, node):
+        self.stack.append(self._locals(node))
+        try:
+            return self.generic_visit(node)
+        finally:
+            self.stack.pop()
+
+    def visit_ClassDef(self, node):
+        saved, self.stack = self.stack, []
+        try:
+            return self.generic_visit(node)
+        finally:
+            self.stack = saved
+
+    def visit_Lambda(self, node):
+        return node
+
+    def _extract(self, value):
+        if not self.stack or not isinstance(value, (ast.BinOp, ast.BoolOp, ast.Compare, ast.IfExp)):
+            return value
+        if any(isinstance(x, (ast.Lambda, ast.ListComp, ast.SetComp, ast.DictComp, ast.GeneratorExp, ast.Yield, ast.YieldFrom, ast.Await, ast.NamedExpr, ast.Starred)) for x in ast.walk(value)):
+            return value
+        local = set().union(*self.stack)
+        params = []
+        for x in ast.walk(value):
+            if isinstance(x, ast.Name) and x.id in local and x.id not in params:
+                params.append(x.id)
+        if not params or not self.hit():
+            return value
+        name = f"_helper_eq{self.count}"
+        self.helpers.append(ast.FunctionDef(name=name, args=ast.arguments(posonlyargs=[], args=[ast.arg(arg=p) for p in params], kwonlyargs=[], kw_defaults=[], defaults=[]),
+                                            body=[ast.Return(value=value)], decorator_list=[], returns=None, type_params=[]))
+        return ast.Call(func=ast.Name(id=name, ctx=ast.Load()), args=[ast.Name(id=p, ctx=ast.Load()) for p in params], keywords=[])
+
+    def visit_Return(self, node):
+        node = self.generic_visit(node)
+        if node.value is not None:
+            node.value = self._extract(node.value)
+        return node
+
+    def visit_Assign(self, node):
+        node = self.generic_visit(node)
+        node.value = self._extract(node.value)
+        return node
+
+    def visit_Module(self, node):
+        node = self.generic_visit(node)
+        if self.helpers:
+            at = 0
+            for i, st in enumerate(node.body):
+                if isinstance(st, (ast.Import, ast.ImportFrom)) or (i == 0 and isinstance(st, ast.Expr) and isinstance(st.value, ast.Constant)):
+                    at = i + 1
+            node.body[at:at] = self.helpers
+        return node
+
+
 def package_signatures(prog):
     seen, dup = {}, set()
     for mod in prog.modules.values():
@@ -917,6 +1001,7 @@ REWRITES = {
     "hoist-strings": lambda sig, only: HoistStrings(only),
     "modern-annotations": lambda sig, only: ModernAnnotations(only),
     "ete-synonyms": lambda sig, only: EteSynonyms(only),
+    "extract-helper": lambda sig, only: ExtractHelper(only),
     "lambda-to-def": lambda sig, only: LambdaToDef(only),
     "minmax-forms": lambda sig, only: MinMaxForms(only),
     "small-idioms": lambda sig, only: SmallIdioms(only),
